@@ -37,6 +37,7 @@ package geom
 //@   ensures result == s.seq.ctype
 //@ func LineString.Reverse
 //@   ensures result.seq.ctype == s.seq.ctype && len(result.seq.floats) == len(s.seq.floats)
+//@   ensures SeqReversed(result.seq, s.seq)
 
 //@ func Polygon.CoordinatesType
 //@   notypeinv
@@ -376,10 +377,16 @@ package geom
 //@   loop 1 invariant 1 <= j && 0 <= i && i < len(m.lines) && nearest.point.coords.Type == 0
 //@   loop 2 invariant 0 <= i && nearest.point.coords.Type == 0
 
+// ring k is kept as it is exactly when its orientation already is the wanted one
+// (shell: clockwise iff forceCW; holes the opposite); otherwise it is replaced by its reversal
+//@ pred KeepRing(p, k, cw) = ((k == 0) <==> ((RingA(p.rings[k]) < 0) <==> cw))
 //@ func Polygon.forceOrientation
+//@   mode real
 //@   ensures result.ctype == p.ctype && len(result.rings) == len(p.rings) && fresh(result.rings)
+//@   ensures forall k :: 0 <= k && k < len(p.rings) ==> (KeepRing(p, k, forceCW) ==> same(result.rings[k], p.rings[k])) && (!KeepRing(p, k, forceCW) ==> result.rings[k].seq.ctype == p.rings[k].seq.ctype && len(result.rings[k].seq.floats) == len(p.rings[k].seq.floats))
 //@   loop 0 invariant -1 <= rangeindex && rangeindex < len(p.rings) && len(orientedRings) == len(p.rings) && offset(orientedRings) == 0 && fresh(orientedRings)
 //@   loop 0 invariant forall k :: 0 <= k && k <= rangeindex ==> LSInv(orientedRings[k]) && orientedRings[k].seq.ctype == p.ctype
+//@   loop 0 invariant forall k :: 0 <= k && k <= rangeindex ==> (KeepRing(p, k, forceCW) ==> same(orientedRings[k], p.rings[k])) && (!KeepRing(p, k, forceCW) ==> orientedRings[k].seq.ctype == p.rings[k].seq.ctype && len(orientedRings[k].seq.floats) == len(p.rings[k].seq.floats))
 
 //@ func MultiPolygon.forceOrientation
 //@   ensures result.ctype == m.ctype && len(result.polys) == len(m.polys) && fresh(result.polys)
